@@ -274,9 +274,11 @@ func runWriterHistory(c *WriterCase, cv *cov, hooks *writerHooks) (v *evid.Viola
 						v = evid.Failf("step %d first Flush of a bytes writer: target has %d bytes, want initial(%d)+written(%d); first difference at %d", step, len(target), len(initial), len(exp)-len(initial), firstDiff(target, exp))
 						return
 					}
-					// a later Flush delivers what was written since the previous one, once, through the same target
-					if flushes > 0 && len(exp) > 0 && !bytes.Equal(target, exp) {
-						v = evid.Failf("step %d Flush number %d of a bytes writer: the target holds %d bytes, the %d bytes written since the previous Flush were expected (first difference at %d)", step, flushes+1, len(target), len(exp), firstDiff(target, exp))
+					// a later Flush: the statement's sentence about the target is about the first Flush (see DESIGN C05);
+					// whatever a later Flush does with what the target held before, it must deliver what was written
+					// since the previous Flush, so the target has to END with exactly those bytes
+					if flushes > 0 && len(exp) > 0 && !bytes.HasSuffix(target, exp) {
+						v = evid.Failf("step %d Flush number %d of a bytes writer: the target (%d bytes) does not end with the %d bytes written since the previous Flush", step, flushes+1, len(target), len(exp))
 						return
 					}
 				} else {
